@@ -233,7 +233,7 @@ fn gen_text(rng: &mut Rng) -> String {
         match rng.below(14) {
             0 => s.push('.'),
             1 => s.push('\\'),
-            2 => s.push_str(&format!("\\{:03}", rng.below(300))),
+            2 => s.push_str(&format!("\\{:03}", if rng.chance(1, 3) { rng.range(60, 125) } else { rng.below(300) })),
             3 => s.push_str(&format!("\\{}", rng.below(100))),
             4 => s.push_str("\\."),
             5 => s.push_str("\\\\"),
@@ -548,6 +548,20 @@ fn check_text(rep: &mut Report, text: &str) {
             }
             rep.class(&format!("text:{}:{}", want.is_some(), text.len().min(40) / 4));
         }
+    }
+    // the same text parsed straight into a LowercaseName: the lower-cased name, or the same verdict
+    match panicmon::catch(|| text.parse::<Box<LowercaseName>>()) {
+        Err(p) => rep.violation(format!("c16:lowercase-fromstr:{}", p.signature()), format!("parsing {:?} as LowercaseName panicked at {}: {}", text, p.location, p.message), Json::obj(vec![("text", Json::s(text))])),
+        Ok(got) => match (&want, &got) {
+            (Some(w), Ok(g)) => {
+                if g.wire_repr() != w.lower().wire().as_slice() {
+                    rep.violation("c16:lowercase-fromstr-value", format!("{:?} parses to LowercaseName {}, reference {}", text, hex(g.wire_repr()), hex(&w.lower().wire())), Json::obj(vec![("text", Json::s(text))]));
+                }
+            }
+            (None, Err(_)) => {}
+            (Some(_), Err(_)) => rep.violation("c16:lowercase-fromstr-rejects-valid", format!("{:?} is rejected as LowercaseName", text), Json::obj(vec![("text", Json::s(text))])),
+            (None, Ok(_)) => rep.violation("c16:lowercase-fromstr-accepts-invalid", format!("{:?} is accepted as LowercaseName", text), Json::obj(vec![("text", Json::s(text))])),
+        },
     }
 }
 
